@@ -11,7 +11,7 @@ import collections
 
 class Fn:
     __slots__ = ("id", "file", "lo", "hi", "kind", "vis", "name", "parent", "self_ty", "trait",
-                 "trait_default", "nargs", "locals", "dbg", "blocks", "_cfg", "_names")
+                 "trait_default", "nargs", "locals", "dbg", "blocks", "_cfg", "_names", "ret", "params")
 
     def __init__(self, d):
         self.id = d["id"]
@@ -25,6 +25,8 @@ class Fn:
         self.self_ty = d.get("self_ty")
         self.trait = d.get("trait")
         self.trait_default = d.get("trait_default")
+        self.ret = d.get("ret")
+        self.params = d.get("params")
         self.nargs = d["nargs"]
         self.locals = d["locals"]
         self.dbg = d["dbg"]
@@ -246,6 +248,14 @@ class Facts:
             p.append(f)
             f = pred.get(f)
         return list(reversed(p))
+
+    def fns_by_file(self):
+        if not hasattr(self, "_by_file"):
+            d = collections.defaultdict(list)
+            for f in self.fns.values():
+                d[f.file].append(f)
+            self._by_file = d
+        return self._by_file
 
     def fmt_sites_in(self, fn):
         """format_args sites lexically inside fn (innermost owner decided by caller)"""
